@@ -175,6 +175,8 @@ def run(ctx):
                         'when an operation starts while another recording of the same recorder is active, that recording is detached from the recorder '
                         'without being saved or aborted: it was created but is never finalised', witness=dn.path_to(n, s), exit=rm.exit_kind(n)))
     from . import common as _ci
+    _ci.import_clauses(ctx, res, 'C12', ['C12.a', 'C12.c', 'C12.d', 'C12.e', 'C12.f'], 'C05', 'C05.k', 'R-ORDER',
+                       'through the asynchronous cassette a recording is stored whole: every buffered write applied once, in order, before its save', floor=4)
     _ci.import_clauses(ctx, res, 'C10', ['C10.d'], 'C05', 'C05.i', 'R-AGREE', 'a save that fails leaves nothing behind that lookups can find', floor=1)
     # ---- C05.h the ordinal counter is fresh whenever the scope is left (also after a discard): otherwise the next recording's
     # outputs are stored from #2 on and a complete, unflagged recording cannot be replayed (missing key #1)
